@@ -176,10 +176,10 @@ def compare_fields(prefix, m, exp, got, viol, ctx):
     """Compare the header list; returns True when equal (possibly modulo allowed whitespace)."""
     if exp == got:
         return True
-    if m.trailers and len(got) == len(exp) + len(m.trailers) and got[len(exp):] == m.trailers:
+    if m.trailers and len(got) == len(exp) + len(m.trailers) and [n.rstrip(b" \t") for n, _ in got[len(exp):]] == [n for n, _ in m.trailers]:
         viol.append((prefix + ":trailer-fields-merged-into-headers",
                      "trailer fields %s were appended to the header list handed to the callback (RFC 9110 6.5.1 MUST NOT merge); %s" % (short(m.trailers), ctx)))
-        got = got[:len(exp)]
+        exp = exp + m.trailers
         if exp == got:
             return True
     keys = set()
@@ -223,6 +223,12 @@ REJECT_KEYS = {
 FEATURE_PRIORITY = ['request-line-shorter-than-14', 'chunk-ext', 'chunk-ext-bws', 'trailers', 'chunk-size-leading-zero', 'last-chunk-multi-zero', 'expect-100', 'expect-in-1.0', 'chunk']
 
 
+def no_length_conn_header(m):
+    """close-delimited response carrying a Connection field other than "close" """
+    vals = ref._field_values(m.headers, b"connection")
+    return m.framing == 'close' and bool(vals) and vals[0].lower() != b"close"
+
+
 def te_not_plain(m):
     """the Transfer-Encoding field is a list / repeated field whose final coding is chunked (not the single token "chunked")"""
     vals = ref._field_values(m.headers, b"transfer-encoding")
@@ -242,6 +248,10 @@ def reject_key(prefix, m):
 
 
 def primary_feature(m):
+    if 'te-leading-htab' in m.features and m.framing == 'chunked':
+        return 'te-leading-htab'
+    if m.framing == 'chunked' and te_not_plain(m):
+        return 'te-list'
     for f in FEATURE_PRIORITY:
         if f in m.features:
             return f
@@ -413,6 +423,8 @@ def judge_client_result(prefix, c, r, stats):
             if o["kind"] == 'delivered':
                 if m.interim and o["code"] in [x.code for x in m.interim]:
                     key = "interim-1xx-treated-as-final"
+                elif no_length_conn_header(m) and o["b"] == b"":
+                    key = "no-length-with-connection-field-treated-as-empty"
                 elif m.phase in ('body-cl', 'chunk-data', 'chunk-line', 'trailers') or m.framing in ('cl', 'chunked'):
                     key = "truncated-response-delivered"
                 else:
@@ -438,7 +450,7 @@ def judge_client_result(prefix, c, r, stats):
         if o["kind"] != 'delivered':
             if v == 'accept':
                 if o["kind"] == 'pending':
-                    viol.append((prefix + ":complete-response-not-delivered", "complete valid response but the request is still pending; features=%s; %s" % (sorted(m.features), ctx)))
+                    viol.append((prefix + ":complete-response-not-delivered:" + primary_feature(m), "complete valid response but the request is still pending; features=%s; %s" % (sorted(m.features), ctx)))
                 else:
                     viol.append((prefix + ":valid-response-failed:" + primary_feature(m), "a response the RFC grammar produces made the request fail (err=%s); features=%s; %s" % (
                         o.get("err"), sorted(m.features), ctx)))
@@ -472,10 +484,8 @@ def judge_client_result(prefix, c, r, stats):
             ok = False
             if m.framing == 'chunked' and te_not_plain(m):
                 key = "te-list-ending-chunked-misframed"
-            elif 'ws-before-colon' in m.either:
-                key = "ws-before-colon-misframed"
-            elif m.framing == 'close' and o["b"] == b"" and b"keep-alive" in ref._connection_tokens(m.headers):
-                key = "keepalive-without-length-treated-as-empty"
+            elif no_length_conn_header(m) and o["b"] == b"":
+                key = "no-length-with-connection-field-treated-as-empty"
             elif m.framing == 'close' and o["b"] == b"":
                 key = "close-delimited-body-dropped"
             elif method == b"CONNECT" and o["b"] == b"":
